@@ -205,8 +205,8 @@ func validateCondition(typesys *typesystem.TypeSystem, tk *openfgav1.TupleKey) e
 				if directlyRelatedType.GetWildcard() != nil && !tuple.IsTypedWildcard(tk.GetUser()) {
 					continue
 				}
-			} else if tuple.IsTypedWildcard(tk.GetUser()) {
-				// This is a wildcard tuple but the directlyRelatedType tuple is not for wildcard.
+			} else if tuple.IsTypedWildcard(tk.GetUser()) || userRelation != "" {
+				// This is a wildcard or userset tuple but the directlyRelatedType is for plain objects of the type.
 				continue
 			}
 
